@@ -255,9 +255,15 @@ impl SpillPoolSink {
 
         // Append the batch
         if let Some(ref mut writer) = file_shared.writer {
-            writer.append_batch(batch)?;
             // make sure we flush the writer for readers
-            writer.flush()?;
+            if let Err(e) = writer.append_batch(batch).and_then(|_| writer.flush()) {
+                // `write_file` was removed from `open_write_files` above and is not put
+                // back after a failed write, so neither a later push nor `Drop` can
+                // reach it anymore. Finalize it here, otherwise the reader would wait
+                // on this file forever.
+                file_shared.finish_after_error();
+                return Err(e);
+            }
             file_shared.batches_written += 1;
             file_shared.estimated_size += batch_size;
         }
@@ -269,13 +275,17 @@ impl SpillPoolSink {
 
         if max_file_size_reached {
             // Finish the IPC writer
-            if let Some(mut writer) = file_shared.writer.take() {
-                writer.finish()?;
-            }
-            // Mark as finished so readers know not to wait for more data
+            let finish_result = match file_shared.writer.take() {
+                Some(mut writer) => writer.finish().map(|_| ()),
+                None => Ok(()),
+            };
+            // Mark as finished so readers know not to wait for more data. This must
+            // also happen when finishing the writer failed: the file is not placed
+            // back in `open_write_files`, so nobody else could mark it finished.
             file_shared.writer_finished = true;
             // Wake reader waiting on this file (it's now finished)
             file_shared.wake();
+            finish_result?;
 
             // Don't place `write_file` back in the `open_write_files` queue so we don't
             // try writing to it again
@@ -553,6 +563,18 @@ impl ActiveSpillFileShared {
         if let Some(waker) = self.waker.take() {
             waker.wake();
         }
+    }
+
+    /// Finalizes this file after a write to it failed: no further batches will be
+    /// appended, so mark it as finished and wake the reader. Batches that were written
+    /// successfully before the failure remain readable.
+    fn finish_after_error(&mut self) {
+        if let Some(mut writer) = self.writer.take() {
+            // The write error is what gets reported to the caller
+            let _ = writer.finish();
+        }
+        self.writer_finished = true;
+        self.wake();
     }
 }
 
